@@ -17,7 +17,8 @@ PARAMS = {'Reservoir Model': 7, 'SUTRA Annual Heat File Name': EX + 'annual_heat
           'End-Use Option': 2, 'Circulation Pump Efficiency': .8, 'Power Plant Type': 8, 'Plant Lifetime': 30, 'Economic Model': 2, 'Well Drilling Cost Correlation': 1, 'Print Output to Console': 0}
 SPEC = [('economics.ccwellfixed', 'real', 0, 200), ('economics.ccwellfixed.Valid', 'bool', None, None), ('economics.ccwelladjfactor', 'real', 0, 10),
         ('wellbores.nprod', 'real', 1, 200), ('wellbores.ninj', 'real', 0, 200), ('economics.ngprice', 'real', 0, 100), ('economics.peakingboilerefficiency', 'real', 0.1, 1),
-        ('economics.discountrate', 'real', 0.001, 0.5), ('economics.inflrateconstruction', 'real', 0, 0.5), ('surfaceplant.electricity_cost_to_buy', 'real', 0, 1)]
+        ('economics.inflrateconstruction', 'real', 0, 0.5),      # (the discount rate stays concrete: 30 years of data make its powers a degree-29 polynomial)
+        ('surfaceplant.electricity_cost_to_buy', 'real', 0, 1)]
 _PREP = {}
 
 
@@ -62,14 +63,14 @@ def obligations(m, v):
     pump, ng = list(e.annualpumpingcosts.value), list(e.annualngcost.value)
     for i in (0, L // 2, L - 1):
         out.append((f'RTES: annual O&M year {i} = pumping electricity + peaking fuel', eq(coam[i], pump[i] + ng[i])))
-    r = v['economics.discountrate']
+    r = float(e.discountrate.value)
     num = (1 + v['economics.inflrateconstruction']) * e.CCap.value
     den = 0.0
     for i in range(L):
         d = 1 / (1 + r) ** i if i else 1.0
         num = num + coam[i] * d
         den = den + sp.AnnualTotalHeatProduced.value[i] * 1e6 * d
-    out.append(('RTES: LCOH = (capital cost with construction financing + discounted O&M) / discounted heat delivered', eq(e.LCOH.value, num / den * 1e8)))
+    out.append(('RTES: LCOH = (capital cost with construction financing + discounted O&M) / discounted heat delivered', core.near(e.LCOH.value, num / den * 1e8, 1e-9)))
     return out
 
 
@@ -98,6 +99,11 @@ def run_unit(unit):
         vals, zv = econ.make_symbolic(SPEC)
         m = drive(vals, True)
         return zv, obligations(m, vals)
+    def probe():
+        for valid in (True, False):
+            yield {'economics.ccwellfixed': 3.0, 'economics.ccwellfixed.Valid': valid, 'economics.ccwelladjfactor': 1.5, 'wellbores.nprod': 1.0, 'wellbores.ninj': 1.0,
+                   'economics.ngprice': 0.033, 'economics.peakingboilerefficiency': 0.85, 'economics.inflrateconstruction': 0.02,
+                   'surfaceplant.electricity_cost_to_buy': 0.07}
     k = 0
     for pr in core.explore(fn, max_paths=500):
         log.path(pr)
@@ -109,5 +115,8 @@ def run_unit(unit):
         zv, obs = pr.value
         harness.reachable(log, pr.ctx, 2000)
         for name, cond in obs:
-            harness.discharge(log, pr.ctx, name, cond, zv, lambda inp, name=name: concrete(inp, only=name), timeout_ms=30000, sample=(k == 1))
+            harness.discharge(log, pr.ctx, name, cond, zv, lambda inp, name=name: concrete(inp, only=name), timeout_ms=8000, sample=(k == 1), probe=probe)
+        if log['cex'] or log['inconclusive']:
+            yield log.result()
+            log = harness.UnitLog(cfg)
     yield log.result()
